@@ -21,12 +21,16 @@ func MaskedReduce(t *Dense, retType Dtype, fn maskedReduceFn, axis ...int) inter
 	ts := tt.(*Dense)
 	retVal := NewDense(retType, ts.shape) //retVal is array to be returned
 
-	it := NewIterator(retVal.Info())
-
-	// iterate through retVal
+	// iterate through retVal. (An iterator's Coord() is the coordinate of the element AFTER the one just returned,
+	// so the coordinates are derived from the running index instead.)
 	slices[ax] = makeRS(0, t.shape[ax])
-	for _, err := it.Next(); err == nil; _, err = it.Next() {
-		coord := it.Coord()
+	coord := make([]int, retVal.Dims())
+	for i := 0; i < retVal.Size(); i++ {
+		rem := i
+		for d := len(coord) - 1; d >= 0; d-- {
+			coord[d] = rem % retVal.Shape()[d]
+			rem /= retVal.Shape()[d]
+		}
 		k := 0
 		for d := range slices {
 			if d != ax {
